@@ -366,6 +366,9 @@ class Arbiter(object):
             new_watcher_cfg = (self.get_watcher_config(new_cfg, n) or
                                self.get_plugin_config(new_cfg, n))
             old_watcher_cfg = w._cfg.copy()
+            if 'env' in old_watcher_cfg:
+                # the env dict is shared with the running watcher
+                old_watcher_cfg['env'] = dict(old_watcher_cfg['env'])
 
             if 'env' in new_watcher_cfg:
                 new_watcher_cfg['env'] = parse_env_dict(new_watcher_cfg['env'])
